@@ -247,3 +247,32 @@ def make_w3(section, field, anchor_name, with_std):
 W3_WELL = make_w3("Well", "$sec_Well", "Well", True)
 W3_PARAMS = make_w3("Parameter", "$sec_Parameter", "Parameter", True)
 W3_CURVES = make_w3("Curves", "$sec_Curves", "Curves", False)
+
+
+# ---------------------------------------------------------------- W3-Other: the ~Other text is written line for line (C03)
+sl_len = z3.Function("py_splitlines_len", S, I)
+sl_arr = z3.Function("py_splitlines_arr", S, z3.ArraySort(I, S))
+
+
+def w3o_post(c):
+    ln, ln0 = c.v("lines"), c.a["lines"]
+    other = z3.Select(c.h("$sec_Other"), c.a["las"].t)
+    k = sl_len(other)
+    return [("one-title-line-then-every-line-of-the-text", ln.n == ln0.n + 1 + k),
+            ("earlier-lines-kept", forall(q, z3.Implies(z3.And(0 <= q, q < ln0.n), z3.Select(ln.cols[0], q) == z3.Select(ln0.cols[0], q)))),
+            ("the-title-line-starts-with-~Other", z3.PrefixOf(z3.StringVal("~Other "), z3.Select(ln.cols[0], ln0.n))),
+            ("the-lines-of-las.other-follow-unchanged-and-in-order (blank ones included)",
+             forall(q, z3.Implies(z3.And(0 <= q, q < k), z3.Select(ln.cols[0], ln0.n + 1 + q) == z3.Select(sl_arr(other), q))))]
+
+
+def w3o_verify(E, c):
+    body, fn = BL.find_block(E, "writer.write", 'lines.append("~Other "', 2)
+    return E.verify(c, fnode=fn, body=body, module="writer")
+
+
+W3_OTHER = REG.add(Contract(
+    "writer.write#W3-Other", params={"las": REF("LASFile"), "lines": LIST(STR), "header_width": INT},
+    requires=lambda c: [("len>=0", c.a["lines"].n >= 0)],
+    ensures=w3o_post, modifies={}, verify_with=w3o_verify, noraise=True,
+    properties=("C03", "C11", "C12")))
+REG.add(Contract("las.LASFile.other", params={"self": REF("LASFile")}, inline=True))
